@@ -50,6 +50,7 @@ POPS = {
     "concat_self": (1, lambda L, t, a: L.sg.concat([t[0], t[0]], a["dim"]), lambda x, a: np.concatenate([x[0], x[0]], axis=a["dim"])),
     "stack": (2, lambda L, t, a: L.sg.stack([t[0], t[1]], a["dim"]), lambda x, a: np.stack([x[0], x[1]], axis=a["dim"])),
     "concat_list_reused": (2, lambda L, t, a: _concat_then_mutate(L, t, a), lambda x, a: np.concatenate([x[0], x[1]], axis=a["dim"])),
+    "stack_list_reused": (2, lambda L, t, a: _stack_then_mutate(L, t, a), lambda x, a: np.stack([x[0], x[1]], axis=a["dim"])),
     "unbind": (1, lambda L, t, a: L.sg.unbind(t[0], a["dim"]), lambda x, a: tuple(np.moveaxis(x[0], a["dim"], 0))),
     "softmax": (1, lambda L, t, a: L.sg.softmax(t[0], a["dim"]), lambda x, a: R.softmax(x[0], a["dim"])),
     "log_softmax": (1, lambda L, t, a: L.sg.log_softmax(t[0], a["dim"]), lambda x, a: R.log_softmax(x[0], a["dim"])),
@@ -108,6 +109,13 @@ def _mul_const_then_iadd(L, t, a):
     out = t[0] * c
     c += 1.0                      # rebinding or not, the recorded product keeps differentiating with the value it was computed with
     c *= 3.0
+    return out
+
+
+def _stack_then_mutate(L, t, a):
+    lst = [t[0], t[1]]
+    out = L.sg.stack(lst, a["dim"])
+    lst.clear()                        # the micro-batch idiom: total = stack(losses).sum(); losses.clear(); ...; total.backward()
     return out
 
 
@@ -325,7 +333,7 @@ def generate(rng, n_instr, n_leaves, allow_kinks=False, big=False, leaves=None, 
                 if r == 0:
                     continue
                 args["dim"] = int(rng.integers(-r, r))
-            elif op == "stack":
+            elif op in ("stack", "stack_list_reused"):
                 args["dim"] = int(rng.integers(-r - 1, r + 1))
             elif op == "unfold_dim":
                 if r == 0:
